@@ -261,6 +261,27 @@ Section Lift.
         split; [|exact B]. apply in_or_app. right. apply in_or_app. right. apply in_rev. exact A.
   Qed.
 
+  (* finer: system flows and the user flows that did not hand over run from their
+     entry point; a user flow runs from a hand-over only when [start_for] says so *)
+  Lemma run_res_in_strong : forall s sc ev,
+    In ev (fst (run_res fuel beh s sc)) ->
+    (exists f, In f (all_sel s) /\ from_flow f Res None ev)
+    \/ (exists f h, In f (s_user s) /\ start_for sc f = Some h /\ from_flow f Res (Some h) ev).
+  Proof.
+    intros s sc ev I. unfold run_res in I. unfold all_sel.
+    apply then_in in I. destruct I as [I|I].
+    - left. apply run_list_in in I. destruct I as [f [A B]]. exists f.
+      split; [|exact B]. apply in_or_app. left. apply in_rev. exact A.
+    - apply then_in in I. destruct I as [I|I].
+      + apply run_users_res_in in I. destruct I as [f [A B]].
+        destruct (start_for sc f) as [h|] eqn:St.
+        * right. exists f, h. split; [apply in_rev; exact A|]. split; [exact St|exact B].
+        * left. exists f. split; [|exact B].
+          apply in_or_app. right. apply in_or_app. left. apply in_rev. exact A.
+      + left. apply run_list_in in I. destruct I as [f [A B]]. exists f.
+        split; [|exact B]. apply in_or_app. right. apply in_or_app. right. apply in_rev. exact A.
+  Qed.
+
   Lemma run_req_in : forall s s2 ev,
     In ev (fst (run_req fuel beh s s2)) ->
     (exists f, In f (all_sel s) /\ from_flow f Req None ev)
@@ -285,43 +306,8 @@ End Lift.
 
 (* ================================================================ (a) only matching flows run *)
 
-Lemma flow_path_of : forall fuel beh e d st ev,
-  from_flow fuel beh (graph_of e) d st ev -> (st = None \/ d = Res) ->
-  eid e = e_flow ev /\ on_root_path beh e ev.
-Proof.
-  intros fuel beh e d st ev [A [B C]] S. cbn [graph_of fname] in A. split; [symmetry; exact A|].
-  apply C04_flow_path in C. cbn [graph_of fname] in C. destruct C as [C P].
-  unfold on_root_path. rewrite B. split; [exact C|].
-  destruct st as [h|].
-  - destruct S as [S|S]; [discriminate|]. clear B. subst d. right. split; [reflexivity|].
-    destruct P as [c' [t [P1 P2]]]. exists h, c', t. auto.
-  - left. exact P.
-Qed.
-
-Lemma engine_event : forall fuel cfg beh x ev,
-  cfg_ok cfg -> In ev (o_trace (engine fuel cfg beh x)) ->
-  exists e, In e cfg /\ eid e = e_flow ev
-            /\ accepts (ef_filter e) (view x (e_dir ev))
-            /\ on_root_path beh e ev.
-Proof.
-  intros fuel cfg beh x ev OK I. rewrite engine_trace in I.
-  destruct (F.t_resp x) eqn:R.
-  - apply run_res_in in I. destruct I as [g [st [A B]]].
-    destruct (sel_flow_accepts cfg x g OK A) as [e [E1 [E2 E3]]]. subst g.
-    destruct (flow_path_of _ _ _ _ _ _ B (or_intror eq_refl)) as [N P].
-    exists e. split; [exact E1|]. split; [exact N|]. split; [|exact P].
-    destruct B as [_ [D _]]. rewrite D. cbn [view]. rewrite (as_response_id x R). exact E3.
-  - apply run_req_in in I. destruct I as [[g [A B]]|[s' [g [st [S [A B]]]]]].
-    + destruct (sel_flow_accepts cfg x g OK A) as [e [E1 [E2 E3]]]. subst g.
-      destruct (flow_path_of _ _ _ _ _ _ B (or_introl eq_refl)) as [N P].
-      exists e. split; [exact E1|]. split; [exact N|]. split; [|exact P].
-      destruct B as [_ [D _]]. rewrite D. exact E3.
-    + apply reselect_some in S. subst s'.
-      destruct (sel_flow_accepts cfg (as_response x) g OK A) as [e [E1 [E2 E3]]]. subst g.
-      destruct (flow_path_of _ _ _ _ _ _ B (or_intror eq_refl)) as [N P].
-      exists e. split; [exact E1|]. split; [exact N|]. split; [|exact P].
-      destruct B as [_ [D _]]. rewrite D. exact E3.
-Qed.
+(* (moved below [flow_req_shape]: the path of an event after a hand-over is tied to
+   the answering event, which needs the shape of a request walk) *)
 
 (* ================================================================ (b) no match *)
 
@@ -454,6 +440,154 @@ Proof.
   intros fuel f beh.
   destruct (C04_flow_impl_is_spec fuel f Req None beh (or_introl eq_refl)) as [E _]. rewrite E.
   unfold exec_flow_spec. destruct (root (gdir f Req)) as [r|]; [apply cut_shape|constructor].
+Qed.
+
+
+(* ================================================================ (a) only matching flows run, on their paths *)
+
+Lemma flow_path_root : forall fuel beh tr e d ev,
+  from_flow fuel beh (graph_of e) d None ev ->
+  eid e = e_flow ev /\ on_root_path beh tr e ev.
+Proof.
+  intros fuel beh tr e d ev [A [B C]]. cbn [graph_of fname] in A. split; [symmetry; exact A|].
+  apply C04_flow_path in C. cbn [graph_of fname] in C. destruct C as [C P].
+  unfold on_root_path. rewrite B. split; [exact C|]. left. exact P.
+Qed.
+
+Lemma flow_path_handover : forall fuel beh tr e h ev c0 pre post,
+  from_flow fuel beh (graph_of e) Res (Some h) ev ->
+  tr = pre ++ {| e_flow := eid e; e_key := h; e_dir := Req; e_cond := c0 |} :: post ->
+  In ev post -> answers (beh (eid e)) Req h = true ->
+  eid e = e_flow ev /\ on_root_path beh tr e ev.
+Proof.
+  intros fuel beh tr e h ev c0 pre post [A [B C]] T I An. cbn [graph_of fname] in A.
+  split; [symmetry; exact A|].
+  apply C04_flow_path in C. cbn [graph_of fname] in C. destruct C as [C [c' [t [P1 P2]]]].
+  unfold on_root_path. rewrite B. split; [exact C|]. right. split; [reflexivity|].
+  exists h, c0, pre, post, c', t. auto.
+Qed.
+
+Lemma then_fst : forall r rest,
+  fst (then_ r rest) = fst r ++ match snd r with Some _ => [] | None => fst (rest tt) end.
+Proof. intros. unfold then_. destruct (snd r); cbn [fst]; [rewrite app_nil_r|]; reflexivity. Qed.
+
+Section Handover.
+  Variable fuel : nat.
+  Variable beh : oracles.
+
+  (* the user flows of a request that hand over: the LAST event is the processor
+     that answered *)
+  Lemma run_users_req_handed : forall fs n k,
+    snd (fst (run_users_req fuel beh fs)) = Some (n, k) ->
+    exists f pre c, In f fs /\ fname f = n
+      /\ fst (fst (run_users_req fuel beh fs))
+         = pre ++ [{| e_flow := n; e_key := k; e_dir := Req; e_cond := c |}]
+      /\ answers (beh n) Req k = true.
+  Proof.
+    intros fs n k. induction fs as [|f fs IH]; cbn [run_users_req]; [discriminate|].
+    pose proof (flow_req_shape fuel f (beh (fname f))) as SH. unfold walk_shape in SH.
+    destruct (snd (exec_flow_impl fuel f Req None (beh (fname f)))) eqn:O.
+    - destruct (run_users_req fuel beh fs) as [[t2 sc] e]. cbn [fst snd] in *. intros H.
+      destruct (IH H) as [f' [pre [c [F [N [E An]]]]]].
+      exists f', (tag f Req (fst (exec_flow_impl fuel f Req None (beh (fname f)))) ++ pre), c.
+      split; [right; exact F|]. split; [exact N|]. split; [|exact An].
+      rewrite E, app_assoc. reflexivity.
+    - cbn [fst snd]. intros H. inversion H; subst n k0.
+      destruct SH as [pre [c [E [_ An]]]]. exists f, (tag f Req pre), c.
+      split; [left; reflexivity|]. split; [reflexivity|]. split; [|exact An].
+      rewrite E. unfold tag. rewrite map_app. reflexivity.
+    - cbn [fst snd]. discriminate.
+    - cbn [fst snd]. discriminate.
+  Qed.
+
+  (* where an event of a request trace comes from; an event of a hand-over
+     continuation comes AFTER the event of the processor that answered, which is
+     a request event of a user flow of the same name *)
+  Lemma run_req_in_strong : forall s s2 ev,
+    In ev (fst (run_req fuel beh s s2)) ->
+    (exists f, In f (all_sel s) /\ from_flow fuel beh f Req None ev)
+    \/ (exists s' f, s2 = Some s' /\ In f (all_sel s') /\ from_flow fuel beh f Res None ev)
+    \/ (exists s' f f0 h c pre post,
+          s2 = Some s' /\ In f (s_user s') /\ from_flow fuel beh f Res (Some h) ev
+          /\ In f0 (s_user s) /\ fname f0 = fname f
+          /\ fst (run_req fuel beh s s2)
+             = pre ++ {| e_flow := fname f; e_key := h; e_dir := Req; e_cond := c |} :: post
+          /\ In ev post /\ answers (beh (fname f)) Req h = true).
+  Proof.
+    intros s s2 ev. unfold run_req, all_sel.
+    pose proof (run_users_req_in fuel beh (s_user s) ev) as U.
+    pose proof (run_users_req_handed (s_user s)) as HD.
+    destruct (run_users_req fuel beh (s_user s)) as [[t2 sc] e2]. cbn [fst snd] in U, HD.
+    rewrite !then_fst. cbn [fst snd]. intros I.
+    apply in_app_or in I. destruct I as [I|I].
+    { left. apply run_list_in in I. destruct I as [f [A B]]. exists f.
+      split; [|exact B]. apply in_or_app. left. exact A. }
+    destruct (snd (run_list fuel beh Req (s_start s))); [destruct I|].
+    apply in_app_or in I. destruct I as [I|I].
+    { left. destruct (U I) as [f [A B]]. exists f.
+      split; [|exact B]. apply in_or_app. right. apply in_or_app. left. exact A. }
+    destruct e2; [destruct I|].
+    apply in_app_or in I. destruct I as [I|I].
+    { left. apply run_list_in in I. destruct I as [f [A B]]. exists f.
+      split; [|exact B]. apply in_or_app. right. apply in_or_app. right. exact A. }
+    destruct (snd (run_list fuel beh Req (s_end s))); [destruct I|].
+    destruct sc as [[n k]|]; [|destruct I]. destruct s2 as [s'|]; [|destruct I].
+    right. pose proof I as I0.
+    apply run_res_in_strong in I. destruct I as [[f [A B]]|[f [h [A [St B]]]]].
+    - left. exists s', f. auto.
+    - right. unfold start_for in St. destruct (n =? fname f) eqn:En; [|discriminate].
+      apply Z.eqb_eq in En. inversion St; subst h n.
+      destruct (HD _ _ eq_refl) as [f0 [pre [c [F0 [N0 [E An]]]]]].
+      exists s', f, f0, k, c, (fst (run_list fuel beh Req (s_start s)) ++ pre),
+             (fst (run_list fuel beh Req (s_end s)) ++ fst (run_res fuel beh s' (Some (fname f, k)))).
+      split; [reflexivity|]. split; [exact A|]. split; [exact B|]. split; [exact F0|].
+      split; [exact N0|]. split; [|split; [|exact An]].
+      + rewrite E, <- !app_assoc. reflexivity.
+      + apply in_or_app. right. exact I0.
+  Qed.
+End Handover.
+
+Lemma eid_inj : forall cfg e1 e2,
+  NoDup (map eid cfg) -> In e1 cfg -> In e2 cfg -> eid e1 = eid e2 -> e1 = e2.
+Proof.
+  intros cfg e1 e2 N I1 I2 E. pose proof (find_eid cfg e1 N I1) as F1.
+  pose proof (find_eid cfg e2 N I2) as F2. rewrite E in F1. rewrite F1 in F2.
+  inversion F2. reflexivity.
+Qed.
+
+Lemma engine_event : forall fuel cfg beh x ev,
+  cfg_ok cfg -> In ev (o_trace (engine fuel cfg beh x)) ->
+  exists e, In e cfg /\ eid e = e_flow ev
+            /\ accepts (ef_filter e) (view x (e_dir ev))
+            /\ on_root_path beh (o_trace (engine fuel cfg beh x)) e ev.
+Proof.
+  intros fuel cfg beh x ev OK I. rewrite engine_trace in I |- *.
+  destruct (F.t_resp x) eqn:R.
+  - apply run_res_in_strong in I. destruct I as [[g [A B]]|[g [h [_ [St _]]]]]; [|discriminate St].
+    destruct (sel_flow_accepts cfg x g OK A) as [e [E1 [E2 E3]]]. subst g.
+    destruct (flow_path_root _ _ (fst (run_res fuel beh (split cfg (selected cfg x)) None)) _ _ _ B) as [N P].
+    exists e. split; [exact E1|]. split; [exact N|]. split; [|exact P].
+    destruct B as [_ [D _]]. rewrite D. cbn [view]. rewrite (as_response_id x R). exact E3.
+  - set (tr := fst (run_req fuel beh (split cfg (selected cfg x)) (reselect cfg x))) in *.
+    apply run_req_in_strong in I.
+    destruct I as [[g [A B]]|[[s' [g [S [A B]]]]|[s' [g [g0 [h [c [pre [post [S [A [B [A0 [N0 [T [Ip An]]]]]]]]]]]]]]]].
+    + destruct (sel_flow_accepts cfg x g OK A) as [e [E1 [E2 E3]]]. subst g.
+      destruct (flow_path_root _ _ tr _ _ _ B) as [N P].
+      exists e. split; [exact E1|]. split; [exact N|]. split; [|exact P].
+      destruct B as [_ [D _]]. rewrite D. exact E3.
+    + apply reselect_some in S. subst s'.
+      destruct (sel_flow_accepts cfg (as_response x) g OK A) as [e [E1 [E2 E3]]]. subst g.
+      destruct (flow_path_root _ _ tr _ _ _ B) as [N P].
+      exists e. split; [exact E1|]. split; [exact N|]. split; [|exact P].
+      destruct B as [_ [D _]]. rewrite D. exact E3.
+    + apply reselect_some in S. subst s'.
+      assert (A' : In g (all_sel (split cfg (selected cfg (as_response x))))).
+      { unfold all_sel. apply in_or_app. right. apply in_or_app. left. exact A. }
+      destruct (sel_flow_accepts cfg (as_response x) g OK A') as [e [E1 [E2 E3]]]. subst g.
+      cbn [graph_of fname] in T, An.
+      destruct (flow_path_handover _ _ tr _ _ _ _ _ _ B T Ip An) as [N P].
+      exists e. split; [exact E1|]. split; [exact N|]. split; [|exact P].
+      destruct B as [_ [D _]]. rewrite D. exact E3.
 Qed.
 
 Section Answer.
@@ -610,4 +744,363 @@ Proof.
       destruct (group_in cfg 2 sel g (ok_ids cfg OK) (selected_incl cfg x OK) G) as [e [E1 [E2 [E3 _]]]].
       subst g. exists e. repeat split; auto.
     + eapply Forall_impl; [|exact D4]. intros e' D. left. exact D.
+Qed.
+
+(* ================================================================ (f) clause 5 end to end: re-selection *)
+
+Lemma NoDup_map_inj : forall (A B : Type) (f : A -> B) (l : list A) a b,
+  NoDup (map f l) -> In a l -> In b l -> f a = f b -> a = b.
+Proof.
+  intros A B f l a b. induction l as [|x l IH]; intros N Ia Ib E; [contradiction|].
+  cbn [map] in N. inversion N as [|? ? N1 N2]; subst.
+  destruct Ia as [Ia|Ia], Ib as [Ib|Ib].
+  - subst. reflexivity.
+  - subst x. exfalso. apply N1. rewrite E. apply in_map. exact Ib.
+  - subst x. exfalso. apply N1. rewrite <- E. apply in_map. exact Ia.
+  - apply IH; assumption.
+Qed.
+
+Lemma NoDup_map_on : forall (A B : Type) (f : A -> B) (l : list A),
+  (forall a b, In a l -> In b l -> f a = f b -> a = b) -> NoDup l -> NoDup (map f l).
+Proof.
+  intros A B f l. induction l as [|x l IH]; intros Inj N; cbn [map]; [constructor|].
+  inversion N as [|? ? N1 N2]; subst. constructor.
+  - intros I. apply in_map_iff in I. destruct I as [y [E I]].
+    assert (y = x) by (apply Inj; [right; exact I|left; reflexivity|exact E]). subst y. contradiction.
+  - apply IH; [|exact N2]. intros a b Ia Ib. apply Inj; right; assumption.
+Qed.
+
+Lemma filters_ids : forall cfg, map F.f_id (filters cfg) = map eid cfg.
+Proof. intros. unfold filters, eid. rewrite map_map. reflexivity. Qed.
+
+Lemma filters_nodup : forall cfg, NoDup (map eid cfg) -> NoDup (filters cfg).
+Proof. intros cfg N. rewrite <- filters_ids in N. exact (NoDup_map_inv _ _ N). Qed.
+
+Lemma selected_nodup : forall cfg x, cfg_ok cfg -> NoDup (selected cfg x).
+Proof.
+  intros cfg x OK. unfold selected. change (ftree_of cfg) with (FP.tree_of (filters cfg)).
+  apply FT.C03_at_most_once; [exact (ok_load cfg OK)|apply filters_nodup; exact (ok_ids cfg OK)].
+Qed.
+
+Lemma group_names : forall cfg k sel,
+  NoDup (map eid cfg) -> incl sel (filters cfg) ->
+  map fname (group cfg k sel) = map F.f_id (filter (fun f => F.f_kind f =? k) sel).
+Proof.
+  intros cfg k sel N. unfold group. induction sel as [|f sel IH]; intros S; [reflexivity|].
+  assert (S' : incl sel (filters cfg)) by (intros y Y; apply S; right; exact Y).
+  cbn [filter]. destruct (F.f_kind f =? k); [|apply IH; exact S'].
+  cbn [flat_map map]. rewrite map_app, (IH S'). f_equal.
+  pose proof (S f (or_introl eq_refl)) as M. unfold filters in M. apply in_map_iff in M.
+  destruct M as [e [E M]]. subst f. rewrite (graph_for_filter cfg e N M). reflexivity.
+Qed.
+
+Lemma group_nodup : forall cfg k sel,
+  NoDup (map eid cfg) -> incl sel (filters cfg) -> NoDup sel ->
+  NoDup (map fname (group cfg k sel)).
+Proof.
+  intros cfg k sel N S D. rewrite (group_names cfg k sel N S).
+  apply NoDup_map_on; [|apply NoDup_filter; exact D].
+  intros a b Ia Ib E. apply filter_In in Ia. apply filter_In in Ib.
+  apply (NoDup_map_inj _ _ F.f_id (filters cfg)); [rewrite filters_ids; exact N| | |exact E].
+  - apply S. apply Ia.
+  - apply S. apply Ib.
+Qed.
+
+Lemma group_has : forall cfg k sel e,
+  NoDup (map eid cfg) -> In e cfg -> In (ef_filter e) sel -> F.f_kind (ef_filter e) = k ->
+  In (graph_of e) (group cfg k sel).
+Proof.
+  intros cfg k sel e N I S K. unfold group. apply in_flat_map. exists (ef_filter e). split.
+  - apply filter_In. split; [exact S|]. apply Z.eqb_eq. exact K.
+  - rewrite (graph_for_filter cfg e N I). left. reflexivity.
+Qed.
+
+(* the second GetFlow finds again every flow selected for the request whose
+   status requirement allows a response-typed stream without response object:
+   URL and method are those of the request, header and query requirements are
+   not judged on a response *)
+Lemma reselect_keeps : forall cfg x f,
+  In f (selected cfg x) -> F.status_ok f (as_response x) = true ->
+  In f (selected cfg (as_response x)).
+Proof.
+  intros cfg x f I S. unfold selected, F.get_flow in *.
+  apply in_flat_map in I. destruct I as [n [Nn I]]. apply filter_In in I. destruct I as [I Q].
+  apply in_flat_map. exists n. split; [exact Nn|]. apply filter_In. split; [exact I|].
+  unfold F.qualifies in *. rewrite !andb_true_iff in Q. destruct Q as [[[_ _] M] _].
+  rewrite S. unfold F.headers_ok, F.query_ok. cbn [as_response F.t_resp orb andb].
+  unfold F.method_ok in *. cbn [as_response F.t_method]. rewrite M. reflexivity.
+Qed.
+
+Lemma found_again_false_not_selected : forall cfg x e,
+  found_again e x = false -> ~ In (ef_filter e) (selected cfg (as_response x)).
+Proof.
+  intros cfg x e FA I. unfold selected, F.get_flow in I.
+  apply in_flat_map in I. destruct I as [n [_ I]]. apply filter_In in I. destruct I as [_ Q].
+  unfold F.qualifies in Q. rewrite !andb_true_iff in Q. destruct Q as [[[_ S] _] _].
+  unfold found_again in FA. rewrite S in FA. discriminate.
+Qed.
+
+(* a request event of a USER flow whose processor answered, in a request that is
+   not abandoned: it is the hand-over of the transaction *)
+Lemma engine_answerer : forall fuel cfg beh x e ev,
+  cfg_ok cfg -> F.t_resp x = false ->
+  o_error (engine fuel cfg beh x) = None ->
+  In e cfg -> F.f_kind (ef_filter e) = 0 ->
+  In ev (o_trace (engine fuel cfg beh x)) ->
+  e_flow ev = eid e -> e_dir ev = Req -> ev_answers beh ev = true ->
+  snd (users_prefix fuel beh (s_user (split cfg (selected cfg x)))) = Some (eid e, e_key ev)
+  /\ In (ef_filter e) (selected cfg x).
+Proof.
+  intros fuel cfg beh x e ev OK R NE Ie K I Fl Dr AN.
+  revert NE I. rewrite engine_error, engine_trace, R. set (sel := selected cfg x). intros NE I.
+  assert (SYS : forall k fs, k <> 0 -> fs = group cfg k sel ->
+                  ~ In ev (fst (run_list fuel beh Req fs))).
+  { intros k fs K' E I'. apply run_list_in in I'. destruct I' as [g [G [B1 _]]]. subst fs.
+    destruct (group_in cfg k sel g (ok_ids cfg OK) (selected_incl cfg x OK) G) as [e' [E1 [E2 [E3 _]]]].
+    subst g. cbn [graph_of fname] in B1.
+    assert (e' = e) by (apply (eid_inj cfg); [exact (ok_ids cfg OK)|exact E1|exact Ie|congruence]).
+    subst e'. congruence. }
+  unfold run_req in NE, I.
+  apply then_none' in NE. destruct NE as [N1 [NE E1]]. rewrite E1 in I. clear E1.
+  pose proof (run_users_req_shape fuel beh (s_user (split cfg sel))) as SH.
+  pose proof (run_users_req_order fuel beh (s_user (split cfg sel))) as UO.
+  pose proof (run_users_req_in fuel beh (s_user (split cfg sel)) ev) as UI.
+  destruct (run_users_req fuel beh (s_user (split cfg sel))) as [[t2 sc] e2] eqn:RU.
+  apply then_none' in NE. destruct NE as [N2 [NE E2]]. rewrite E2 in I. clear E2.
+  apply then_none' in NE. destruct NE as [N3 [N4 E3]]. rewrite E3 in I. clear E3.
+  cbn [fst snd] in *. specialize (SH N2). destruct (UO N2) as [_ UO2].
+  apply in_app_or in I. destruct I as [I|I]; [exfalso; exact (SYS 1 _ ltac:(discriminate) eq_refl I)|].
+  apply in_app_or in I. destruct I as [I|I].
+  2:{ exfalso. apply in_app_or in I. destruct I as [I|I]; [exact (SYS 2 _ ltac:(discriminate) eq_refl I)|].
+      destruct sc as [h|]; [|destruct I]. destruct (reselect cfg x) as [s'|]; [|destruct I].
+      apply run_res_in in I. destruct I as [g [st [_ [_ [B _]]]]]. congruence. }
+  assert (SEL : In (ef_filter e) sel).
+  { destruct (UI I) as [g [G [B1 _]]].
+    destruct (group_in cfg 0 sel g (ok_ids cfg OK) (selected_incl cfg x OK) G) as [e' [E1 [E2 [_ E4]]]].
+    subst g. cbn [graph_of fname] in B1.
+    assert (e' = e) by (apply (eid_inj cfg); [exact (ok_ids cfg OK)|exact E1|exact Ie|congruence]).
+    subst e'. exact E4. }
+  split; [|exact SEL]. rewrite <- UO2.
+  destruct sc as [[n k]|].
+  - destruct SH as [pre [c [E [Q An]]]]. subst t2.
+    apply in_app_or in I. destruct I as [I|I].
+    + exfalso. unfold silent in Q. rewrite Forall_forall in Q. rewrite (Q _ I) in AN. discriminate.
+    + destruct I as [I|[]]. subst ev. cbn [e_flow e_key] in *. subst n. reflexivity.
+  - exfalso. unfold silent in SH. rewrite Forall_forall in SH. rewrite (SH _ I) in AN. discriminate.
+Qed.
+
+Lemma engine_response_continues : forall fuel cfg beh x e ev,
+  cfg_ok cfg -> F.t_resp x = false ->
+  o_error (engine fuel cfg beh x) = None ->
+  In e cfg -> F.f_kind (ef_filter e) = 0 ->
+  In ev (o_trace (engine fuel cfg beh x)) ->
+  e_flow ev = eid e -> e_dir ev = Req -> ev_answers beh ev = true ->
+  found_again e x = true ->
+  exists s' us1 us2 reqpart,
+    reselect cfg x = Some s'
+    /\ rev (s_user s') = us1 ++ graph_of e :: us2
+    /\ ~ In (eid e) (map fname us1) /\ ~ In (eid e) (map fname us2)
+    /\ Forall (fun e' => e_dir e' = Req) reqpart /\ In ev reqpart
+    /\ o_trace (engine fuel cfg beh x)
+       = reqpart
+         ++ flat_map (flow_events fuel beh Res None) (rev (s_start s'))
+         ++ (flat_map (flow_events fuel beh Res None) us1
+             ++ flow_events fuel beh Res (Some (e_key ev)) (graph_of e)
+             ++ flat_map (flow_events fuel beh Res None) us2)
+         ++ flat_map (flow_events fuel beh Res None) (rev (s_end s')).
+Proof.
+  intros fuel cfg beh x e ev OK R NE Ie K I Fl Dr AN FA.
+  destruct (engine_answerer fuel cfg beh x e ev OK R NE Ie K I Fl Dr AN) as [UP SEL].
+  pose proof (reselect_keeps cfg x _ SEL FA) as SEL'.
+  set (sel' := selected cfg (as_response x)) in *.
+  assert (RS : reselect cfg x = Some (split cfg sel')).
+  { unfold reselect. fold (selected cfg (as_response x)). fold sel'.
+    destruct sel' as [|f0 l]; [destruct SEL'|reflexivity]. }
+  assert (IU : In (graph_of e) (s_user (split cfg sel')))
+    by (apply group_has; [exact (ok_ids cfg OK)|exact Ie|exact SEL'|exact K]).
+  assert (ND : NoDup (map fname (s_user (split cfg sel'))))
+    by (apply group_nodup; [exact (ok_ids cfg OK)|apply selected_incl; exact OK|apply selected_nodup; exact OK]).
+  revert NE I. rewrite engine_error, engine_trace, R, RS. intros NE I.
+  change (eid e) with (fname (graph_of e)) in UP.
+  destruct (C04_response_continues fuel beh _ _ _ _ NE UP IU ND) as [us1 [us2 [E [N1 [N2 T]]]]].
+  exists (split cfg sel'), us1, us2,
+    (flat_map (flow_events fuel beh Req None) (s_start (split cfg (selected cfg x)))
+     ++ flat_map (flow_events fuel beh Req None) (fst (users_prefix fuel beh (s_user (split cfg (selected cfg x)))))
+     ++ flat_map (flow_events fuel beh Req None) (s_end (split cfg (selected cfg x)))).
+  split; [reflexivity|]. split; [exact E|]. split; [exact N1|]. split; [exact N2|].
+  assert (RQ : forall fs, Forall (fun e' => e_dir e' = Req) (flat_map (flow_events fuel beh Req None) fs)).
+  { intros fs. apply Forall_forall. intros e' I'. apply in_flat_map in I'. destruct I' as [f [_ I']].
+    unfold flow_events in I'. apply tag_in in I'. apply I'. }
+  split; [repeat (apply Forall_app; split); apply RQ|]. split.
+  - rewrite T in I. rewrite !app_assoc in I. repeat rewrite <- app_assoc in I.
+    apply in_app_or in I. destruct I as [I|I]; [apply in_or_app; left; exact I|].
+    apply in_app_or in I. destruct I as [I|I]; [apply in_or_app; right; apply in_or_app; left; exact I|].
+    apply in_app_or in I. destruct I as [I|I]; [apply in_or_app; right; apply in_or_app; right; exact I|].
+    exfalso.
+    assert (RS' : forall st fs, Forall (fun e' => e_dir e' = Res)
+                    (flat_map (fun f => flow_events fuel beh Res (st f) f) fs)).
+    { intros st fs. apply Forall_forall. intros e' I'. apply in_flat_map in I'. destruct I' as [f [_ I']].
+      unfold flow_events in I'. apply tag_in in I'. apply I'. }
+    assert (RE : forall l, Forall (fun e' => e_dir e' = Res) l -> In ev l -> False).
+    { intros l Fa J. rewrite Forall_forall in Fa. rewrite (Fa _ J) in Dr. discriminate. }
+    apply in_app_or in I. destruct I as [I|I]; [exact (RE _ (RS' (fun _ => None) _) I)|].
+    apply in_app_or in I. destruct I as [I|I]; [exact (RE _ (RS' (fun _ => None) _) I)|].
+    apply in_app_or in I. destruct I as [I|I].
+    { unfold flow_events in I. apply tag_in in I. destruct I as [_ [D _]]. congruence. }
+    apply in_app_or in I. destruct I as [I|I]; exact (RE _ (RS' (fun _ => None) _) I).
+  - rewrite T. rewrite <- !app_assoc. reflexivity.
+Qed.
+
+(* the other way round: a flow whose status requirement excludes a stream without
+   response object runs nothing on the response side of a request *)
+Lemma engine_not_found_again : forall fuel cfg beh x e ev,
+  cfg_ok cfg -> F.t_resp x = false -> In e cfg -> found_again e x = false ->
+  In ev (o_trace (engine fuel cfg beh x)) -> e_flow ev = eid e -> e_dir ev = Req.
+Proof.
+  intros fuel cfg beh x e ev OK R Ie FA I Fl. rewrite engine_trace, R in I.
+  apply run_req_in in I. destruct I as [[g [_ [_ [D _]]]]|[s' [g [st [S [A [B1 [D _]]]]]]]]; [exact D|].
+  exfalso. apply reselect_some in S. subst s'.
+  destruct (all_sel_in cfg _ g (ok_ids cfg OK) (selected_incl cfg (as_response x) OK) A) as [e' [E1 [E2 E3]]].
+  subst g. cbn [graph_of fname] in B1.
+  assert (e' = e) by (apply (eid_inj cfg); [exact (ok_ids cfg OK)|exact E1|exact Ie|congruence]).
+  subst e'. exact (found_again_false_not_selected cfg x e FA E3).
+Qed.
+
+(* ================================================================ (g) abandoned only by F-C04d *)
+
+Lemma dropped_mono : forall beh fs fs' t,
+  incl fs fs' -> answer_dropped beh fs t = true -> answer_dropped beh fs' t = true.
+Proof.
+  intros beh fs fs' t S H. unfold answer_dropped in *. apply existsb_exists in H.
+  destruct H as [e [I D]]. apply existsb_exists. exists e. split; [exact I|].
+  unfold dropped_event in *. rewrite !andb_true_iff in *. destruct D as [D1 D2]. split; [exact D1|].
+  apply existsb_exists in D2. destruct D2 as [f [F D2]]. apply existsb_exists. exists f.
+  split; [apply S; exact F|exact D2].
+Qed.
+
+Lemma sel_flows_incl : forall cfg sel, incl (sel_flows (split cfg sel)) (graphs cfg).
+Proof.
+  intros cfg sel g I. unfold sel_flows, split in I. cbn [s_start s_user s_end] in I.
+  apply in_app_or in I. destruct I as [I|I]; [eapply group_incl; eauto|].
+  apply in_app_or in I. destruct I as [I|I]; eapply group_incl; eauto.
+Qed.
+
+Lemma engine_abandoned : forall cfg beh x o,
+  cfg_ok cfg -> o_error (engine (fuel_of cfg) cfg beh x) = Some o ->
+  F.t_resp x = false
+  /\ exists k e c, o = NoRespNode k /\ In e cfg
+       /\ In {| e_flow := eid e; e_key := k; e_dir := Req; e_cond := c |}
+             (o_trace (engine (fuel_of cfg) cfg beh x))
+       /\ answers (beh (eid e)) Req k = true /\ has_node (ef_res e) k = false.
+Proof.
+  intros cfg beh x o OK. rewrite engine_error, engine_trace.
+  pose proof (cfg_sel_ok cfg (selected cfg x) OK) as S1.
+  assert (S2 : forall s', reselect cfg x = Some s' -> sel_ok (fuel_of cfg) s').
+  { intros s' E. apply reselect_some in E. subst s'. apply cfg_sel_ok. exact OK. }
+  destruct (F.t_resp x).
+  - intros E. exfalso.
+    rewrite (C04_response_order_acyclic (fuel_of cfg) beh _ None S1) in E. discriminate.
+  - intros E. split; [reflexivity|].
+    destruct (C04_abandoned_only_by_F_C04d _ _ _ _ _ S1 S2 E) as [k [f [c [O [F [I [An H]]]]]]].
+    pose proof (sel_flows_incl cfg _ f F) as G. unfold graphs in G. apply in_map_iff in G.
+    destruct G as [e [G1 G2]]. subst f. exists k, e, c. cbn [graph_of fname fres] in *. auto.
+Qed.
+
+Lemma engine_outside : forall cfg beh x,
+  cfg_ok cfg ->
+  e2e_dropped cfg beh (o_trace (engine (fuel_of cfg) cfg beh x)) = false ->
+  o_error (engine (fuel_of cfg) cfg beh x) = None.
+Proof.
+  intros cfg beh x OK D. destruct (o_error (engine (fuel_of cfg) cfg beh x)) as [o|] eqn:E; [|reflexivity].
+  exfalso. destruct (engine_abandoned cfg beh x o OK E) as [_ [k [e [c [_ [Ie [I [An H]]]]]]]].
+  unfold e2e_dropped, answer_dropped in D.
+  assert (X : existsb (dropped_event beh (graphs cfg)) (o_trace (engine (fuel_of cfg) cfg beh x)) = true).
+  { apply existsb_exists. eexists. split; [exact I|]. unfold dropped_event.
+    cbn [e_dir e_flow e_key is_req]. rewrite An. cbn [andb]. apply existsb_exists.
+    exists (graph_of e). split; [unfold graphs; apply in_map; exact Ie|].
+    cbn [graph_of fname fres]. rewrite Z.eqb_refl, H. reflexivity. }
+  rewrite X in D. discriminate.
+Qed.
+
+(* ================================================================ (h) fuel *)
+
+Lemma users_invoked_fuel_le : forall f1 f2 beh fs,
+  (f1 <= f2)%nat -> Forall (flow_ok f1) fs -> users_invoked f1 beh fs = users_invoked f2 beh fs.
+Proof.
+  intros f1 f2 beh fs L H. induction H as [|f fs F _ IH]; cbn [users_invoked]; [reflexivity|].
+  rewrite (flow_fuel_le f1 f2 f Req None _ F L), IH. reflexivity.
+Qed.
+
+Lemma engine_fuel : forall fuel cfg beh x,
+  cfg_ok cfg -> (fuel_of cfg <= fuel)%nat ->
+  engine fuel cfg beh x = engine (fuel_of cfg) cfg beh x.
+Proof.
+  intros fuel cfg beh x OK L. rewrite !engine_unfold. unfold run_selected.
+  pose proof (cfg_sel_ok cfg (selected cfg x) OK) as S1.
+  assert (S2 : forall s', reselect cfg x = Some s' -> sel_ok (fuel_of cfg) s').
+  { intros s' E. apply reselect_some in E. subst s'. apply cfg_sel_ok. exact OK. }
+  destruct (F.t_resp x).
+  - rewrite <- (run_res_fuel_le (fuel_of cfg) fuel beh L _ None S1). reflexivity.
+  - rewrite <- (run_req_fuel_le (fuel_of cfg) fuel beh L _ _ S1 S2).
+    unfold invoked. destruct S1 as [A [U Z]].
+    rewrite <- (run_list_fuel_le (fuel_of cfg) fuel beh L Req _ A).
+    rewrite <- (users_invoked_fuel_le (fuel_of cfg) fuel beh _ L U). reflexivity.
+Qed.
+
+(* ================================================================ (i) the oracle hypotheses, finitely *)
+
+Lemma dec_orc_row : forall rows fl k d c kd,
+  dec_orc rows fl k d = (c, kd) -> kd = Early ->
+  exists c' , In (OR fl k (is_req d) c' true) rows.
+Proof.
+  intros rows fl k d c kd H E. unfold dec_orc in H.
+  destruct (find (fun r => let '(OR f' k' q' _ _) := r in (f' =? fl) && (k' =? k) && eqb q' (is_req d)) rows)
+    as [[f' k' q' c' e']|] eqn:Fd.
+  - apply find_some in Fd. destruct Fd as [I M]. rewrite !andb_true_iff in M. destruct M as [[M1 M2] M3].
+    apply Z.eqb_eq in M1. apply Z.eqb_eq in M2. apply eqb_prop in M3. subst f' k' q'.
+    injection H as H1 H2. subst kd. destruct e'; [|discriminate]. exists c'. exact I.
+  - injection H as H1 H2. subst kd. discriminate.
+Qed.
+
+Lemma dir_of_is_req : forall d, dir_of (is_req d) = d.
+Proof. destruct d; reflexivity. Qed.
+
+Lemma coherentb_sound : forall orc areal,
+  coherentb orc areal = true -> coherent (dec_orc orc) (dec_ao areal).
+Proof.
+  intros orc areal H. unfold coherentb in H. apply andb_true_iff in H. destruct H as [H1 H2].
+  rewrite forallb_forall in H1, H2.
+  assert (AT : forall fl k d,
+            answers (dec_orc orc fl) d k = true \/ (exists a, dec_ao areal fl k d = Some a /\ A.is_early a = true) ->
+            coherent_at (dec_orc orc) (dec_ao areal) fl k d = true).
+  { intros fl k d [An|[a [AO EA]]].
+    - unfold answers in An. apply andb_true_iff in An. destruct An as [_ An].
+      destruct (dec_orc orc fl k d) as [c kd] eqn:DO. cbn [snd] in An.
+      destruct (dec_orc_row orc fl k d c kd DO) as [c' I]; [destruct kd; [discriminate|reflexivity]|].
+      specialize (H1 _ I). cbn beta iota in H1. rewrite dir_of_is_req in H1. exact H1.
+    - unfold dec_ao, find_arow in AO.
+      destruct (find (fun r => let '(AR f' k' q' _) := r in (f' =? fl) && (k' =? k) && eqb q' (is_req d)) areal)
+        as [[f' k' q' a']|] eqn:Fd; [|discriminate].
+      apply find_some in Fd. destruct Fd as [I M]. rewrite !andb_true_iff in M. destruct M as [[M1 M2] M3].
+      apply Z.eqb_eq in M1. apply Z.eqb_eq in M2. apply eqb_prop in M3. subst f' k' q'.
+      specialize (H2 _ I). cbn beta iota in H2. rewrite dir_of_is_req in H2. exact H2. }
+  intros fl k d. split.
+  - intros An. pose proof (AT fl k d (or_introl An)) as C. unfold coherent_at in C. rewrite An in C.
+    destruct (dec_ao areal fl k d) as [a|]; [|discriminate]. exists a. split; [reflexivity|].
+    apply eqb_prop in C. symmetry. exact C.
+  - intros a AO EA. pose proof (AT fl k d (or_intror (ex_intro _ a (conj AO EA)))) as C.
+    unfold coherent_at in C. rewrite AO, EA in C. apply eqb_prop in C. exact C.
+Qed.
+
+Lemma sys_quietb_sound : forall cfg orc,
+  sys_quietb cfg orc = true -> sys_quiet cfg (dec_orc orc).
+Proof.
+  intros cfg orc H e I K k. unfold sys_quietb in H. rewrite forallb_forall in H. specialize (H e I).
+  apply orb_true_iff in H. destruct H as [H|H]; [apply Z.eqb_eq in H; contradiction|].
+  destruct (answers (dec_orc orc (eid e)) Req k) eqn:An; [|reflexivity]. exfalso.
+  pose proof An as An'. unfold answers in An'. apply andb_true_iff in An'. destruct An' as [_ An'].
+  destruct (dec_orc orc (eid e) k Req) as [c kd] eqn:DO. cbn [snd] in An'.
+  destruct (dec_orc_row orc (eid e) k Req c kd DO) as [c' J]; [destruct kd; [discriminate|reflexivity]|].
+  rewrite forallb_forall in H. specialize (H _ J). cbn beta iota in H.
+  rewrite Z.eqb_refl, An in H. discriminate.
 Qed.
